@@ -725,7 +725,7 @@ func (h *Handler) handlePostIndexAttrDiff(w http.ResponseWriter, r *http.Request
 
 	// Encode response.
 	if err := json.NewEncoder(w).Encode(postIndexAttrDiffResponse{
-		Attrs: attrs,
+		Attrs: typedAttrs(attrs),
 	}); err != nil {
 		h.logger.Printf("response encoding error: %s", err)
 	}
@@ -959,7 +959,7 @@ func (h *Handler) handlePostFieldAttrDiff(w http.ResponseWriter, r *http.Request
 
 	// Encode response.
 	if err := json.NewEncoder(w).Encode(postFieldAttrDiffResponse{
-		Attrs: attrs,
+		Attrs: typedAttrs(attrs),
 	}); err != nil {
 		h.logger.Printf("response encoding error: %s", err)
 	}
@@ -1699,4 +1699,36 @@ func (h *Handler) handlePostTranslateKeys(w http.ResponseWriter, r *http.Request
 	if err != nil {
 		h.logger.Printf("writing translate keys response: %v", err)
 	}
+}
+
+// attrFloat marshals a float64 attribute so that the receiver can tell it from
+// an integer: always with a decimal point or an exponent.
+type attrFloat float64
+
+// MarshalJSON implements json.Marshaler.
+func (f attrFloat) MarshalJSON() ([]byte, error) {
+	s := strconv.FormatFloat(float64(f), 'g', -1, 64)
+	if !strings.ContainsAny(s, ".eE") {
+		s += ".0"
+	}
+	return []byte(s), nil
+}
+
+// typedAttrs returns a copy of m whose float64 values are attrFloats, for the
+// attribute diff responses: encoding/json prints float64(2) as 2, which the
+// requesting node would store as an integer.
+func typedAttrs(m map[uint64]map[string]interface{}) map[uint64]map[string]interface{} {
+	out := make(map[uint64]map[string]interface{}, len(m))
+	for id, attrs := range m {
+		o := make(map[string]interface{}, len(attrs))
+		for k, v := range attrs {
+			if f, ok := v.(float64); ok {
+				o[k] = attrFloat(f)
+			} else {
+				o[k] = v
+			}
+		}
+		out[id] = o
+	}
+	return out
 }
